@@ -5,6 +5,7 @@
 import TinyHttpModel.WireSpec
 import TinyHttpModel.ConnSpec
 import TinyHttpModel.Lemmas.HeadParse
+import TinyHttpModel.Lemmas.Oracle
 import TinyHttpModel.Lemmas.LoopA
 
 namespace TH.Props.C02
@@ -37,6 +38,16 @@ theorem delivered_is_parsed (s : St) (h : Head) (fr : Framing) (last : Bool) (a 
       d.bodyLength = fr.bodyLength := by
   obtain ⟨_, d, _, hd⟩ := handle_spec s h fr last a body bs fin
   exact ⟨d, hd⟩
+
+/-- …and across every segmentation: the operational head reader, pulling bytes from a socket
+    whose reads return oracle-chosen sizes (TCP segments, the 1 KiB read buffer), returns the
+    same head and stops at the same byte. -/
+theorem head_roundtrip_any_segmentation (h : Head) (ows : List (Bytes × Bytes)) (rest : Bytes) (fin : EndState)
+    (orc : List Nat)
+    (hwf : Spec.wfHead h = true)
+    (hows : ∀ o ∈ ows, Spec.isOwsList o.1 = true ∧ Spec.isOwsList o.2 = true) :
+    ∃ s', readHeadO ⟨Spec.renderHead h ows ++ rest, fin, orc⟩ = (.ok h, s') ∧ s'.bytes = rest ∧ s'.fin = fin := by
+  sorry
 
 /-- non-vacuity: a concrete head with a duplicate header, an empty value and a colon in a value. -/
 example : readHead (Spec.renderHead ⟨⟨b!"get"⟩, b!"/a?b", ⟨1, 1⟩,
